@@ -25,9 +25,13 @@
    Independent reference (validation, harness/props/c14/geom.go):
      "hdist" [p1; p2; VF radius; VL ids]   for each ID a lower and an upper bound of the chord distance between the segment and the
                                            voxel's footprint                                                  -> VL [VL [VF lo; VF hi]; ...]
-   corr: skip mode: same error flag, same ID set and the same number of IDs as Corridor.corridor_exec fed with the oracle answers;
-         measured mode: the filter is READ OFF THE OBSERVED SET (the measuring loop's state is not replayed): L ⊆ obs ⊆ skip-mode model,
-         and (hZoom >= 6) no candidate that the reference puts clearly inside the radius (hi < radius) is missing.
+     "mloop" [p1; p2; VL ids]              the corridor's measuring loop replayed on exactly these IDs in exactly this order: ONE
+                                           closest.Measure holding the segment, reused for all IDs (its search starts from the previous ID's
+                                           state), vertex call + geodesy conversion + MeasureNonnegativeDistance per ID -> VL [VF d | VE _; ...]
+   corr: same error flag, same ID set and the same number of IDs as the executable model fed with the oracle answers, in BOTH modes and at
+         every hZoom: skip mode Corridor.corridor_exec; measured mode Corridor.corridor_run, whose stateful measure is Corridor.replay of
+         the "mloop" answers for the model's own sorted candidate list (Corridor.candidates) with Go's `dist < radius`;
+         additionally (hZoom >= 6) no candidate that the reference puts clearly inside the radius (hi < radius) is missing.
    prop: Corridor.check_corridor on the observed set (NoDup, zooms, L ⊆ obs, radius 0 ⇒ obs ≡ L, every added ID in the reported box of a
          line voxel), and in measured mode at hZoom >= 6 no added ID that the reference puts clearly outside the radius (lo > radius)
          [hZoom 2..5: the distance clause is NOT COVERED — a cell spans a large part of the globe, the planar hull of its corners is far
@@ -123,6 +127,22 @@ Definition ask_gjk (oracle : oracle_t) (p1 p2 : val) (ids : list string) : optio
       end
   end.
 
+(* the real measuring loop replayed on the model's candidate list: one distance (or the failure of the vertex call) per candidate *)
+Definition ask_mloop (oracle : oracle_t) (p1 p2 : val) (cs : list string) : option (list (result float)) :=
+  match cs with
+  | [] => Some []
+  | _ =>
+      match oracle "mloop" [p1; p2; of_LS cs] with
+      | VL l =>
+          let rs := map (fun v => match v with VF d => Some (Ok d) | VE _ => Some Err | _ => None end) l in
+          match all_opt rs with
+          | Some r => if Nat.eqb (List.length r) (List.length cs) then Some r else None
+          | None => None
+          end
+      | _ => None
+      end
+  end.
+
 (* j_ok = false: the case cannot be judged;  j_skip: refused by the size guard and the refusal is confirmed;
    j_cls: finding class of a failed property check ("-" = none) *)
 Record judged := { j_corr : bool; j_prop : bool; j_model : val; j_ok : bool; j_skip : bool; j_cls : string }.
@@ -193,9 +213,12 @@ Definition judge (oracle : oracle_t) (p1 p2 : val) (h v : Z) (radius : float) (s
             | None => jbad
             | Some fp =>
                 let oset := match o with Ok l => set_of l | Err => SS.empty end in
-                let nearb := fun id => SS.mem id oset in
-                let m := corridor_exec (fun _ => fp) nearb line skip in
-                let mskip := if skip then m else corridor_exec (fun _ => fp) nearb line true in
+                let mskip := corridor_exec (fun _ => fp) (fun _ => true) line true in
+                (* measured mode: the real measuring loop is asked, with its one reused Measure, for the model's own sorted candidates *)
+                match (if skip then Some [] else ask_mloop oracle p1 p2 (candidates (fun _ => fp) line)) with
+                | None => jbad
+                | Some answers =>
+                let m := if skip then mskip else corridor_run (fun _ => fp) _ answers (replay radius) line false in
                 let zero := (radius =? 0)%float in
                 match o with
                 | Err => jv (negb (is_ok m)) (expect_err || negb (is_ok m)) (ids_val m)
@@ -230,6 +253,7 @@ Definition judge (oracle : oracle_t) (p1 p2 : val) (h v : Z) (radius : float) (s
                       | _, _, _, _ => jv false false (ids_val m)   (* the implementation succeeded where the line / fit call or the model fails:
                                                                       contradicts C14_line_error / C14_fit_error *)
                       end
+                end
                 end
             end
         end
